@@ -1036,6 +1036,10 @@ class Interp:
             return a + b
         if isinstance(a, list) and isinstance(b, int) and op == "Mult":
             return a * b
+        if isinstance(a, list) and len(a) == 1 and isinstance(b, z3.ArithRef) and op == "Mult":
+            # [x] * n for symbolic n: n copies of x (an empty list for n <= 0)
+            x = a[0]
+            return SymList(conc(Max(I(b), 0)), lambda k, x=x: x)
         if isinstance(a, SRec) or isinstance(b, SRec):
             h = self.class_models.get(("binop", op))
             if h:
